@@ -3,6 +3,7 @@ import FlVerif.Gen.SetterGen
 import Mathlib.Tactic.Linarith
 import FlVerif.Lemmas.CodeCascade
 import FlVerif.Lemmas.CodeEngineIOVar
+import FlVerif.Lemmas.CodeRaised
 
 /-! # C12 — Output values follow the lock-previous / default / lock-range cascade
 
@@ -28,6 +29,23 @@ theorem code_defuzzify (c : CascadeCfg Rat) (hasDefuzzifier : Bool) (raw : Py.M 
     | (s', false) => ∃ σ, Gen.Code.OutputVariable_defuzzify.run c hasDefuzzifier raw s {} = .ok σ ∧
         σ.self_value = s'.value ∧ σ.self_previous_value = s'.previous :=
   Op.code_defuzzify c hasDefuzzifier raw s
+
+/-- **Tie A, the state at a raise.**  `Gen.Code.OutputVariable_defuzzify_rs` is the same source translated with
+    `raise_state` (an exception carries the record of the locals as it is at the raise; same profile, same externals;
+    `fz` is the fuzzy output before the call).  For every setting, defuzzifier outcome and previous state: when the
+    translated function raises - there is no defuzzifier (`ValueError`) or the defuzzifier raises - the record at the
+    raise has `self.value`, `self.previous_value` and the fuzzy output **exactly as on entry** (nothing has been assigned;
+    the source assigns `previous_value` only after the defuzzifier has returned), and the plain translation, which
+    `code_defuzzify` ties to the model, raises the same class; on success both translations assign the same
+    `self.value` / `self.previous_value` and the fuzzy output is untouched. -/
+theorem code_defuzzify_raise_unchanged (c : CascadeCfg Rat) (hasDefuzzifier : Bool) (raw : Py.M (List (X Rat)))
+    (s : OutState Rat) (fz : List (Op.Engine.Act Rat)) :
+    match Gen.Code.OutputVariable_defuzzify_rs.run c hasDefuzzifier raw s fz {} with
+    | .error (err, σ) => (σ.self_value = s.value ∧ σ.self_previous_value = s.previous ∧ σ.self_fuzzy = fz) ∧
+        Gen.Code.OutputVariable_defuzzify.run c hasDefuzzifier raw s {} = .error err
+    | .ok σ => σ.self_fuzzy = fz ∧ ∃ σ', Gen.Code.OutputVariable_defuzzify.run c hasDefuzzifier raw s {} = .ok σ' ∧
+        σ.self_value = σ'.self_value ∧ σ.self_previous_value = σ'.self_previous_value :=
+  Op.code_defuzzify_raise_unchanged c hasDefuzzifier raw s fz
 
 /-! ## helper facts about clipping -/
 
